@@ -2,7 +2,9 @@ import io, logging, math
 import propka.run as run
 from propka import hybrid36
 logging.disable(logging.CRITICAL)
-print('decode 1_0 ->',hybrid36.decode('1_0'), '; decode " 1_00"->',hybrid36.decode(' 1_00'))
+for s in ('1_0',' 1_00'):
+    try: print('decode', repr(s), '->', hybrid36.decode(s))
+    except ValueError as e: print('decode', repr(s), 'ValueError')
 src=open('/repo/tests/pdb/1FTJ-Chain-A.pdb').read().splitlines()
 atoms=[l for l in src if l.startswith('ATOM  ')]
 # find HIS NE2 or CYS SG / TYR OH surface and put a C-X (X=F or Cl) 3.0 A away
